@@ -12,7 +12,8 @@ from props import c03
 
 warnings.simplefilter('ignore')
 
-REQUIRED = ['dwell_accounting', 'executed_dwell', 'shipped_headers_clean', 'segTimes_append', 'fabtime_closed_path']
+REQUIRED = ['dwell_accounting', 'executed_dwell', 'shipped_headers_clean', 'segTimes_append', 'fabtime_closed_path',
+            'travel_expected', 'compiled_pass_travel', 'fabtime_is_scan_passes']
 RULE = ('stream dwell: the operation trees of C03 (nested REPEAT/FOR, zero/negative/None pauses, crashes) on the real context '
         'manager; PGMCompiler.dwell_time must equal totalDwell of the bytes written (Lean: parse, build the loop structure, bodies '
         'once per iteration) — exactly for dyadic pauses, within 1e-9 relative otherwise — and equal the model\'s reported total.  '
@@ -33,7 +34,10 @@ CLAIM = {
             'counted once per iteration — and (executed_dwell) equals what the reference controller accumulates when it executes '
             'the program from any state; proved by mutual structural induction over the operation tree, the crash case included '
             'because the finally-multiplication acts on exactly the partial body between REPEAT and ENDREPEAT. '
-            'fabtime_closed_path: for a closed path the tiled estimate is scan x the one-pass sum (any dist with dist p p = 0). '
+            'fabtime_closed_path: for a closed path the tiled estimate is scan x the one-pass sum (any dist with dist p p = 0); '
+            'one pass is the compiled program: the travel time of the moves the reference controller makes on what write() emitted '
+            'is the same sum over the printed points (compiled_pass_travel, built on C01 write_replays), so under '
+            'distance-preserving compilation the estimate is scan x the travel time of the compiled program (fabtime_is_scan_passes). '
             'Both are tied to the code by evaluating them on real sessions / real paths every run.',
     'note': 'Trusted: Lean kernel/Mathlib; Spec/Controller.lean; Model/Gcode.lean tied by differential comparison; float rounding of '
             'the sums and of sqrt sampled with stated tolerances.',
